@@ -37,7 +37,10 @@ package ast
 // ---- chunked child storage (C14, C15): linkedNodes as a sequence.
 // Element i lives in head[i] for i < 16, else in chunk tail[i/16-1] at i%16.
 //@ pure func lnAt(ln *linkedNodes, i int) Node = ite(i < 16, ln.head[i], (*ln.tail[i / 16 - 1])[i % 16])
-//@ pure func lnWF(ln *linkedNodes) bool = ln != nil && 0 <= ln.size && ln.size <= (len(ln.tail) + 1) * 16 && len(ln.tail) <= 8796093022208 && (forall a int :: (0 <= a && a < len(ln.tail) && (a + 1) * 16 < ln.size) ==> ln.tail[a] != nil)
+//@ pure func lnWF(ln *linkedNodes) bool = ln != nil && 0 <= ln.size && ln.size <= (len(ln.tail) + 1) * 16 && len(ln.tail) <= 8796093022208 && (forall a int :: (0 <= a && a < len(ln.tail) && (a + 1) * 16 < ln.size) ==> ln.tail[a] != nil) && lnDistinct(ln) && lnSpare(ln)
+// chunks are pairwise distinct objects; slots of tail beyond its length (spare capacity) are nil
+//@ pure func lnDistinct(ln *linkedNodes) bool = forall a int, b int :: (0 <= a && a < b && b < len(ln.tail) && ln.tail[a] != nil) ==> ln.tail[a] != ln.tail[b]
+//@ pure func lnSpare(ln *linkedNodes) bool = forall a int :: (len(ln.tail) <= a && a < cap(ln.tail)) ==> ln.tail[a] == nil
 
 // At: the address of element i of the sequence, nil exactly when i is out of [0, size).
 //@ func (*linkedNodes).At inline props C14,C15
@@ -54,3 +57,15 @@ package ast
 //@   requires self == nil || len(self.tail) <= 8796093022208
 //@   ensures self == nil ==> result == 0
 //@   ensures self != nil ==> result == (len(self.tail) + 1) * 16
+
+// growTailLength: tail gets at least l slots; existing chunk pointers keep their places, new slots are nil.
+//@ func (*linkedNodes).growTailLength props C15
+//@   requires self != nil && 0 <= l && l <= 8796093022208 && len(self.tail) <= 8796093022208 && lnSpare(self)
+//@   modifies self.tail
+//@   ensures len(self.tail) == ite(l <= old(len(self.tail)), old(len(self.tail)), l)
+//@   ensures forall a int :: (0 <= a && a < old(len(self.tail))) ==> self.tail[a] == old(self.tail[a])
+//@   ensures forall a int :: (old(len(self.tail)) <= a && a < cap(self.tail)) ==> self.tail[a] == nil
+//@   ensures l <= old(len(self.tail)) ==> same(self.tail, old(self.tail))
+//@   ensures base(self.tail) == old(base(self.tail)) || fresh(self.tail)
+//@   loop 0: invariant cap(self.tail) <= c && (c <= cap(self.tail) || c <= 2 * l + 2) && 0 <= c
+//@   loop 0: decreases l - c
